@@ -37,6 +37,9 @@ type witness struct {
 	Exclude string   `json:"exclude"` // one exclude pattern, "" = none
 	Hidden  bool     `json:"hidden"`
 	Via     string   `json:"via"` // "mapfs" | "hostfs" | "asp"
+	// Earlier glob() calls (include patterns, no exclude) made on the same Globber before this one, as the glob() calls
+	// of one BUILD file are.
+	Earlier []string `json:"earlier_includes_on_the_same_globber,omitempty"`
 	Entry   string   `json:"entry,omitempty"`
 	Problem string   `json:"problem,omitempty"`
 }
@@ -65,6 +68,9 @@ var segments = []string{"*", "a.go", "**", "*.go", "?", "sub", "a?b", "[ab]*", "
 
 // Exclude alphabet.
 var excludes = []string{"*.go", "a.go", "sub", "sub/*", "**/a.go", "sub/**", "**/a(b).go"}
+
+// Excludes that are also used as the include of an earlier call on the same Globber.
+var primedExcludes = []string{"**", "**/a.go"}
 
 const buildFileName = "BUILD"
 
@@ -602,7 +608,11 @@ func main() {
 		default:
 			m := mapFS(w.Root, w.Files)
 			glob = func(i, e string, h bool) ([]string, string) {
-				return runGlob(fs.NewGlobber(m, []string{buildFileName}), w.Root, i, e, h)
+				g := fs.NewGlobber(m, []string{buildFileName})
+				for _, earlier := range w.Earlier {
+					runGlob(g, w.Root, earlier, "", h)
+				}
+				return runGlob(g, w.Root, i, e, h)
 			}
 		}
 		w.Entry, w.Problem = "", ""
@@ -701,6 +711,21 @@ func main() {
 									samples.Add(func() any { return w })
 								}
 								checkCase(r, t, w, glob)
+							}
+						}
+					}
+					// One BUILD file, two glob() calls: an exclude pattern that an earlier call of the same Globber used
+					// as its include (only patterns that are compiled, i.e. contain "**", can be remembered by a Globber).
+					for _, ex := range primedExcludes {
+						primed := func(inc, e string, h bool) ([]string, string) {
+							g2 := fs.NewGlobber(m, []string{buildFileName})
+							runGlob(g2, root, ex, "", h)
+							return runGlob(g2, root, inc, e, h)
+						}
+						for _, hidden := range []bool{false, true} {
+							for _, p := range jb.pats {
+								atomic.AddInt64(&evals, 1)
+								checkCase(r, t, witness{Root: root, Files: jb.files, Include: p, Exclude: ex, Hidden: hidden, Via: "mapfs", Earlier: []string{ex}}, primed)
 							}
 						}
 					}
